@@ -1036,7 +1036,17 @@ class SGen:
                 env.pop(n, None)
         self.feats.add("while")
         self.feats.add("literal:promoted")
-        return extra_pre + [pre[0], pre[1], stmt]
+        post = []
+        if self.chance(4) and env[state[0]].dtype in (np.float32, np.float64, np.int64) and isinstance(env.get("go"), np.ndarray):
+            # the condition variable is an ordinary variable: its value AFTER the loop (False unless the loop ended through `break`) is read
+            st_post = Assign([state[0]], Bin("+", Var(state[0]), Call("Cast", [Var("go")], {"to": ONNX_ENUM[NAME_OF[env[state[0]].dtype]]})))
+            try:
+                it.stmt(st_post, env)
+                post = [st_post]
+                self.feats.add("while:cond_read_after_loop")
+            except (InterpError, KeyError, ValueError, TypeError):
+                post = []
+        return extra_pre + [pre[0], pre[1], stmt] + post
 
     def gen_nested_last_hit(self, env):
         """Depth-3 template (outer loop / inner loop with a literal or tensor bound / if):
